@@ -394,12 +394,22 @@ def r16e(ctx, repo):
     gp = repo.find_method(repo.cls("parameters", "ParameterSet"), "get_par")
     raises = [r for r in own_nodes(gp.node) if isinstance(r, ast.Raise) and r.exc is not None]
     ctx.check(any("KeyError" in ast.unparse(r.exc) for r in raises) and all("KeyError" in ast.unparse(r.exc) for r in raises), "R16e", gp, raises[0] if raises else gp.node, "get_par signals an unknown name with the class the loader catches", "ParameterSet.get_par raises %s for an unknown name but load_calibration catches KeyError" % sorted({ast.unparse(r.exc)[:30] for r in raises}))
-    nan_skip = [s for s in own_nodes(fi.node) if isinstance(s, ast.If) and "isna(v)" in ast.unparse(s.test) and isinstance(s.body[-1], ast.Continue)]
-    ctx.check(bool(nan_skip), "R16e", fi, nan_skip[0] if nan_skip else fi.node, "blank cells keep existing values", "blank (NaN) cells are not skipped: existing values are overwritten with NaN")
-    yst = [s for s in own_nodes(fi.node) if isinstance(s, ast.Assign) and ast.unparse(s.targets[0]).endswith(".y_factor[k]")]
-    ctx.require(yst, "R16e: y_factor assignment not found")
-    for s in yst:
-        ctx.check(any(pol and ast.unparse(t).endswith("in par.y_factor") for t, pol in guards_of(s)), "R16e", fi, s, "population factor assigned only if the parameter has that population", "`%s` creates y-factors for populations the parameter does not have" % norm(s))
+    from ..core import boolx as B
+
+    # the three stores of the value loop run under exactly these conditions (truth tables; `continue` counts as the negated test for what follows)
+    vl = [l for l in own_nodes(fi.node) if isinstance(l, ast.For) and ast.unparse(l.iter).endswith("values.items()") and isinstance(l.target, ast.Tuple)]
+    ctx.require(len(vl) == 1, "R16e: the loop over the cells of a calibration row was not found")
+    k, v = (ast.unparse(x) for x in vl[0].target.elts)
+    meta = [s for s in ast.walk(vl[0]) if isinstance(s, ast.Assign) and ast.unparse(s.targets[0]).endswith(".meta_y_factor")]
+    yst = [s for s in ast.walk(vl[0]) if isinstance(s, ast.Assign) and ast.unparse(s.targets[0]).endswith(".y_factor[%s]" % k)]
+    ctx.require(len(meta) == 1 and len(yst) == 1, "R16e: the meta_y_factor / y_factor stores of load_calibration were not found")
+    par = ast.unparse(meta[0].targets[0]).rsplit(".", 1)[0]
+    want_meta = B.parse_cond("not pd.isna(%s) and %s == 'meta_y_factor'" % (v, k))
+    want_y = B.parse_cond("not pd.isna(%s) and not (%s == 'meta_y_factor') and %s in %s.y_factor" % (v, k, k, par))
+    for st, want, what in ((meta[0], want_meta, "the all-population factor"), (yst[0], want_y, "a population factor")):
+        got = B.cond(guards_of(st, stop=vl[0]))
+        okv = ast.unparse(st.value) == v
+        ctx.check(okv and B.equivalent(got, want), "R16e", fi, st, "%s is loaded exactly when the cell is not blank%s" % (what, "" if st is meta[0] else " and the parameter has that population"), "`%s` is executed under a condition that differs from the expected one (e.g. when %s): blank cells overwrite existing values with NaN, filled cells are skipped, or y-factors are created for populations the parameter does not have" % (norm(st), B.counterexample(got, want)))
 
 
 def informational(ctx, repo):
